@@ -95,7 +95,7 @@ Definition introduces (m : msg) : bool :=
 
 Lemma pick_in n l c : pick n l = Some c -> In c l.
 Proof.
-  unfold pick. destruct l as [|x tl]; [discriminate|]. intros H. eapply nth_error_In; exact H.
+  unfold pick, pick_sel. destruct l as [|x tl]; [discriminate|]. intros H. eapply nth_error_In; exact H.
 Qed.
 
 Lemma intro_candidates_sub n src c : In c (intro_candidates n src) -> In c (n_peers n).
